@@ -1,6 +1,7 @@
 package rules
 
 import (
+	"go/token"
 	"fmt"
 	"go/types"
 	"strings"
@@ -28,6 +29,7 @@ func c12(c *Ctx) {
 	c08R3(c, "R3/C08.R3")
 	sHigher(c, "R3/S-HIGHER")
 	c12R6(c, "R6")
+	c12R7(c, "R7")
 	c12R4(c, "R4")
 	sUpToDate(c, "R5/S-UPTODATE", "(*Raft).requestVote", "RequestVoteRequest", "RequestVoteResponse", false, true)
 	sUpToDate(c, "R5/S-UPTODATE", "(*Raft).requestPreVote", "RequestPreVoteRequest", "RequestPreVoteResponse", false, true)
@@ -324,5 +326,119 @@ func c12R6(c *Ctx, rule string) {
 	for _, s := range c.P.CallsIn(fn, engine.Is("backoff")) {
 		ok := c.P.Arg(s.Instr, 1) == "p1.failures" && !strings.Contains(c.P.Arg(s.Instr, 2), "p1.")
 		c.Check(rule, "replicateTo:backoff-bounded", c.P.InstrPos(s.Instr), "the wait is backoff(base, s.failures, constant limit)", ok, "backoff("+c.P.Arg(s.Instr, 0)+", "+c.P.Arg(s.Instr, 1)+", "+c.P.Arg(s.Instr, 2)+")", 1)
+	}
+}
+
+
+// c12R7: two structural conditions of "a reachable follower is caught up".
+// (a) startStopReplication re-points an existing replication routine when the
+// server's address in the configuration changed (the routine reads s.peer);
+// (b) in pipeline mode every send whose arm stays in the loop reports its
+// failure into the loop condition, so a dead pipeline is left and replication
+// falls back to the standard mode – also on the periodic (idle) arm.
+func c12R7(c *Ctx, rule string) {
+	if fn := c.Fn(rule, "(*Raft).startStopReplication"); fn != nil {
+		pf := c.Field(rule, "followerReplication", "peer")
+		srv := "val(range recv.configurations.latest.Servers)"
+		if pf != nil {
+			var loopIf ssa.Instruction
+			engine.EachInstr(fn, func(in ssa.Instruction) {
+				if ifi, ok := in.(*ssa.If); ok {
+					cd := c.P.CondOf(ifi.Cond)
+					if cd.IsRel && cd.X == "idx(range)" && cd.Y == "len(recv.configurations.latest.Servers)" {
+						loopIf = in
+					}
+				}
+			})
+			r := c.Run(&engine.Automaton{Fn: fn, Tracks: []engine.Track{
+				{Name: "iter", If: func(cd engine.Cond, _ *ssa.If) (bool, int) {
+					return cd.IsRel && cd.X == "idx(range)" && cd.Y == "len(recv.configurations.latest.Servers)", engine.True
+				}, Kills: []string{"moved", "repointed"}},
+				engine.PredCond("moved", func(cd engine.Cond) (bool, int) {
+					if cd.IsRel && ((strings.HasSuffix(cd.X, ".peer.Address") && cd.Y == srv+".Address") || (strings.HasSuffix(cd.Y, ".peer.Address") && cd.X == srv+".Address")) {
+						if isNEc(cd) {
+							return true, engine.True
+						}
+						return true, engine.False
+					}
+					return false, 0
+				}),
+				engine.Event("repointed", func(in ssa.Instruction) bool {
+					v, ok := c.P.StoredValue(in, pf)
+					if !ok || c.P.D(v) != srv {
+						return false
+					}
+					st, isStore := in.(*ssa.Store)
+					return isStore && !strings.HasPrefix(c.P.D(st.Addr), "new(followerReplication)")
+				}),
+			}})
+			if loopIf == nil {
+				c.Bad(rule, "startStopReplication:server-loop", c.P.Pos(fn.Pos()), "a loop over the latest configuration's servers", "not found")
+			} else {
+				c.RequireAt(r, rule, "startStopReplication:address-change-repoints-routine", loopIf, "when an existing routine's peer address differs from the configuration's, s.peer is replaced by the configuration's server before the next server is looked at", func(v engine.View) bool {
+					return !v.T("moved") || v.Seen("repointed")
+				})
+				has := false
+				engine.EachInstr(fn, func(in ssa.Instruction) {
+					if ifi, ok := in.(*ssa.If); ok {
+						cd := c.P.CondOf(ifi.Cond)
+						if cd.IsRel && (strings.HasSuffix(cd.X, ".peer.Address") || strings.HasSuffix(cd.Y, ".peer.Address")) {
+							has = true
+						}
+					}
+				})
+				c.Check(rule, "startStopReplication:compares-addresses", c.P.Pos(fn.Pos()), "existing routines are checked for an address change", has, pick(has, "comparison present", "no comparison"), 1)
+			}
+		}
+	}
+	if fn := c.Fn(rule, "(*Raft).pipelineReplicate"); fn != nil {
+		var ctl *ssa.Phi
+		var header *ssa.BasicBlock
+		engine.EachInstr(fn, func(in ssa.Instruction) {
+			if ifi, ok := in.(*ssa.If); ok {
+				v := ifi.Cond
+				for {
+					if u, ok := v.(*ssa.UnOp); ok && u.Op == token.NOT {
+						v = u.X
+						continue
+					}
+					break
+				}
+				if ph, ok := v.(*ssa.Phi); ok && strings.Contains(c.P.D(ph), "recv.pipelineSend(") {
+					ctl, header = ph, ifi.Block()
+				}
+			}
+		})
+		if ctl == nil {
+			c.Bad(rule, "pipelineReplicate:loop-condition", c.P.Pos(fn.Pos()), "a loop controlled by the outcome of pipelineSend", "not found")
+			return
+		}
+		n := 0
+		for _, s := range c.P.CallsIn(fn, engine.Is("(*Raft).pipelineSend")) {
+			n++
+			feeds := false
+			if v, ok := s.Instr.(ssa.Value); ok {
+				for _, e := range ctl.Edges {
+					if e == v {
+						feeds = true
+					}
+				}
+			}
+			stays := engine.Reaches(s.Instr.Block(), header)
+			// leaving arms (break) may ignore the result
+			leaves := true
+			for _, su := range s.Instr.Block().Succs {
+				if engine.Reaches(su, header) {
+					leaves = false
+				}
+			}
+			if len(s.Instr.Block().Succs) == 0 {
+				leaves = !stays
+			}
+			c.Check(rule, "pipelineReplicate:send-failure-ends-pipeline", c.P.InstrPos(s.Instr), "a pipelineSend in an arm that stays in the loop assigns its result to the loop condition (a failed send leaves pipeline mode)", feeds || leaves, pick(feeds, "feeds the loop condition", pick(leaves, "arm leaves the loop", "result dropped, loop continues")), 1)
+		}
+		if n < 3 {
+			c.Bad(rule, "pipelineReplicate:sends", c.P.Pos(fn.Pos()), "at least three pipelineSend calls (trigger, deferred trigger, periodic)", fmt.Sprintf("%d", n))
+		}
 	}
 }
